@@ -36,7 +36,8 @@ def search(ctx, prefix, ops, build, canon, check, depth, name='', max_states=Non
                 ctx.traces += 1
                 if obj is None:
                     continue
-                check(h2, obj)
+                if check(h2, obj) is False:
+                    continue   # do not expand below a state that already violates (only root causes are reported)
                 k2 = h64(canon(h2, obj))
                 ctx.edge(k, repr(op), k2)
                 if k2 not in seen:
